@@ -233,6 +233,21 @@ template<class N, class T, class U>
                         vf::outcome(std::string("ok_") + op);
                 } else
                     vf::outcome(std::string("unsupported_") + op);
+                // a bare built-in on the LEFT of the compound form: k op= wrapper(b)  ==  k op= b
+                if constexpr (requires(T k) { f(k, WU(b)); }) {
+                    T got{};
+                    vf::Outcome o = vf::run([&] {
+                        T k = a;
+                        f(k, WU(b));
+                        got = k;
+                    });
+                    vf::validated();
+                    if (!o.ok() || got != expect) {
+                        vf::outcome(o.ok() ? "wrong_assign" : o.str());
+                        vf::violation(std::string(op) + "/builtin_left/" + (o.ok() ? "value" : o.str()), id(), id() + " " + op + " (built-in left): got " + (o.ok() ? vf::to_s(got) : o.str()) + ", built-in gives " + vf::to_s(expect));
+                    } else
+                        vf::outcome(std::string("ok_") + op + "_builtin_left");
+                }
             };
             check_assign("add_assign", fitsP(Ap + Bp), [](auto& x, auto y) { x += y; });
             check_assign("sub_assign", fitsP(Ap - Bp), [](auto& x, auto y) { x -= y; });
